@@ -1083,7 +1083,21 @@ impl History {
                 }
                 6 => {
                     if exists {
-                        let (a, b) = *cx.rng.pick(gen::MARKERS);
+                        let (mut a, mut b) = *cx.rng.pick(gen::MARKERS);
+                        if cx.rng.chance(1, 3) {
+                            // two marker pairs one right after the other, the second closely related to the first
+                            let step = cx.rng.pick(gen::MARKER_STEPS);
+                            let (first, second) = if cx.rng.chance(1, 2) { (step[0], step[1]) } else { (step[1], step[0]) };
+                            hist.push(format!("markers({},{:?},{:?})", id, first.0, first.1));
+                            if via_bridge {
+                                bridge::highlight_with(id, first.0, first.1);
+                            } else {
+                                highlight_with(id, first);
+                            }
+                            a = second.0;
+                            b = second.1;
+                            cx.count("marker pairs set right after a closely related pair");
+                        }
                         hist.push(format!("markers({},{:?},{:?})", id, a, b));
                         cx.ctx(format!("C20 lang={} history={:?}", lang, hist));
                         if via_bridge {
@@ -1310,8 +1324,8 @@ impl Prop for History {
     fn floors(&self) -> Vec<(&'static str, u64, u64)> {
         match self.0 {
             Which::NoCrash => vec![("searches", 20000, 200000), ("searches with hits", 5000, 50000), ("joined-record hits (two spans from a one-word query)", 50, 500), ("non-ASCII queries", 2000, 20000), ("limit 0", 200, 2000), ("limit 65536", 200, 2000), ("histories with boundary-value record ids", 2000, 20000), ("long-text searches", 500, 5000), ("long-text searches with a query over 255 characters", 100, 1000), ("corpus-store searches", 300, 3000), ("long-text cases with a giant word or a 1000+ word title", 20, 200), ("soak searches on one store", 600000, 2500000), ("most searches on one store max ", 66000, 66000), ("soak stores with more than 2^16 records", 2, 8), ("adds re-using the id of an earlier record", 5000, 50000), ("registry: searches", 10000, 300000), ("registry: searches with hits", 1500, 45000), ("registry: limit changes", 5000, 150000), ("registry: readers that call back into the registry", 1500, 45000), ("code points put through a store", 1000000, 1000000)],
-            Which::NoStale => vec![("search after add following an earlier search", 2000, 20000), ("search after clear following an earlier search", 500, 5000), ("search after limit following an earlier search", 500, 5000), ("empty-query search after a mutation following an earlier search", 1000, 10000), ("exhaustive histories", 20000, 200000), ("histories on a crowded store", 2000, 20000), ("histories that clear and refill a crowded store", 2000, 20000), ("histories growing a store past 64/128/256/512 records with searches in between", 200, 5000), ("histories growing a store past 1024 records with searches in between", 60, 1500), ("soak searches on one store", 1000000, 4000000), ("search repeating the previous query after a mutation", 2000, 20000), ("operations on another store of the same thread inside a history", 3000, 30000), ("registry-driven searches compared with a fresh store", 5000, 50000), ("adds re-using the id of an earlier record", 3000, 30000), ("histories whose searches run on other threads than the adds (the store is moved there and back)", 1500, 15000), ("histories whose reference stores are built and searched on threads of their own", 3000, 30000), ("histories with a very long word next to a threshold match", 2000, 20000), ("histories with more than twenty fully tied records and a shrinking limit", 2000, 20000), ("histories with two lives of the same size ending in the same query", 2000, 20000), ("histories in which a text is followed by its own normalised spelling", 2000, 20000), ("histories with two long queries that share their first twenty letters", 1500, 15000), ("histories with 2^8 or 2^16 lives of one store between two equal searches", 500, 5000)],
-            Which::Registry => vec![("observations", 20000, 200000), ("observations with >= 2 live ids holding results", 2000, 20000), ("destroy", 300, 3000), ("searches", 3000, 30000), ("histories over 4-20 store ids", 1000, 10000), ("bursts of 45-120 records", 300, 3000), ("stores created with another language than their neighbours", 3000, 30000), ("searches repeating the text just sent to another id", 2000, 20000), ("histories whose result buffers are read only now and then", 5000, 50000), ("reads that add a record from inside the reader", 5000, 50000), ("searches repeated on the same id after a limit change", 5000, 50000), ("stores emptied in place through using_store", 2000, 20000), ("histories whose model stores answer on threads of their own", 5000, 50000), ("searches repeating the text this id was sent last", 3000, 30000), ("ids destroyed and created again under another language, then sent the same text", 3000, 30000), ("limits written through using_store", 500, 5000), ("long registry sessions", 48, 480), ("long registry sessions of 2^16 calls or more between two equal searches", 30, 300), ("calls in long registry sessions", 2000000, 20000000)],
+            Which::NoStale => vec![("search after add following an earlier search", 2000, 20000), ("search after clear following an earlier search", 500, 5000), ("search after limit following an earlier search", 500, 5000), ("empty-query search after a mutation following an earlier search", 1000, 10000), ("exhaustive histories", 20000, 200000), ("histories on a crowded store", 2000, 20000), ("histories that clear and refill a crowded store", 2000, 20000), ("histories growing a store past 64/128/256/512 records with searches in between", 200, 5000), ("histories growing a store past 1024 records with searches in between", 60, 1500), ("soak searches on one store", 1000000, 4000000), ("search repeating the previous query after a mutation", 2000, 20000), ("operations on another store of the same thread inside a history", 3000, 30000), ("registry-driven searches compared with a fresh store", 5000, 50000), ("adds re-using the id of an earlier record", 3000, 30000), ("histories whose searches run on other threads than the adds (the store is moved there and back)", 1500, 15000), ("histories whose reference stores are built and searched on threads of their own", 3000, 30000), ("histories with a very long word next to a threshold match", 2000, 20000), ("histories with more than twenty fully tied records and a shrinking limit", 2000, 20000), ("histories with two lives of the same size ending in the same query", 2000, 20000), ("histories in which a text is followed by its own normalised spelling", 2000, 20000), ("histories with two long queries that share their first twenty letters", 1500, 15000), ("histories with 2^8 or 2^16 lives of one store between two equal searches", 500, 5000), ("histories with two closely related marker pairs set one right after the other", 800, 8000)],
+            Which::Registry => vec![("observations", 20000, 200000), ("observations with >= 2 live ids holding results", 2000, 20000), ("destroy", 300, 3000), ("searches", 3000, 30000), ("histories over 4-20 store ids", 1000, 10000), ("bursts of 45-120 records", 300, 3000), ("stores created with another language than their neighbours", 3000, 30000), ("searches repeating the text just sent to another id", 2000, 20000), ("histories whose result buffers are read only now and then", 5000, 50000), ("reads that add a record from inside the reader", 5000, 50000), ("searches repeated on the same id after a limit change", 5000, 50000), ("stores emptied in place through using_store", 2000, 20000), ("histories whose model stores answer on threads of their own", 5000, 50000), ("searches repeating the text this id was sent last", 3000, 30000), ("ids destroyed and created again under another language, then sent the same text", 3000, 30000), ("limits written through using_store", 500, 5000), ("marker pairs set right after a closely related pair", 1000, 10000), ("long registry sessions", 48, 480), ("long registry sessions of 2^16 calls or more between two equal searches", 30, 300), ("calls in long registry sessions", 2000000, 20000000)],
         }
     }
     fn run(&self, cx: &mut Cx, stream: &str, idx: u64) {
@@ -1511,6 +1525,18 @@ impl Prop for History {
                     ops.push(Op::Search(w.to_string()));
                     last_q = Some(w.to_string());
                     cx.count("histories with 2^8 or 2^16 lives of one store between two equal searches");
+                }
+                if cx.rng.chance(1, 20) {
+                    // two closely related marker pairs one right after the other, the same search after each
+                    let step = cx.rng.pick(gen::MARKER_STEPS);
+                    let (first, second) = if cx.rng.chance(1, 2) { (step[0], step[1]) } else { (step[1], step[0]) };
+                    let q = last_q.clone().unwrap_or_else(|| "metal".to_string());
+                    ops.push(Op::Add("metal mailbox".to_string(), 2));
+                    ops.push(Op::Markers(first.0, first.1));
+                    ops.push(Op::Search(q.clone()));
+                    ops.push(Op::Markers(second.0, second.1));
+                    ops.push(Op::Search(q));
+                    cx.count("histories with two closely related marker pairs set one right after the other");
                 }
                 let refill_at = if cx.tier != Tier::Miri && cx.rng.chance(1, 5) { Some(cx.rng.below(n + 1)) } else { None };
                 for k in 0..=n {
